@@ -133,6 +133,18 @@ def is_midnight_of(e: ast.AST) -> Optional[ast.AST]:
     m = match("datetime($d.year, $d.month, $d.day, $*z)", e)
     if m and all(isinstance(z, ast.Constant) and z.value == 0 for z in m['z']):
         return m['d']
+    # keyword spelling: datetime(year=d.year, month=d.month, day=d.day[, hour=0, ...]) (also mixed with positional arguments)
+    if isinstance(e, ast.Call) and isinstance(e.func, ast.Name) and e.func.id == 'datetime' and e.keywords and \
+            all(k.arg for k in e.keywords) and not any(isinstance(a, ast.Starred) for a in e.args):
+        names = ['year', 'month', 'day', 'hour', 'minute', 'second', 'microsecond']
+        vals = dict(zip(names, e.args))
+        dup = any(k.arg in vals for k in e.keywords)
+        vals.update({k.arg: k.value for k in e.keywords})
+        if not dup and set(vals) <= set(names) and {'year', 'month', 'day'} <= set(vals):
+            base = [v.value for f, v in vals.items() if f in ('year', 'month', 'day') and isinstance(v, ast.Attribute) and v.attr == f]
+            if len(base) == 3 and same(base[0], base[1]) and same(base[0], base[2]) and \
+                    all(isinstance(v, ast.Constant) and v.value == 0 for f, v in vals.items() if f not in ('year', 'month', 'day')):
+                return base[0]
     if isinstance(e, ast.Call) and isinstance(e.func, ast.Attribute) and e.func.attr == 'replace' and not e.args:
         kw = {k.arg: k.value for k in e.keywords}
         if set(kw) == {'hour', 'minute', 'second', 'microsecond'} and \
